@@ -5,12 +5,15 @@ Property theorems only (helper lemmas: TFVerif/Proofs/Frame.lean).  `Frame.getit
 `TensorFrame.__getitem__` (TFVerif/Model/Frame.lean), generic in the per-feature operations
 `ops : FeatOps Φ`; `spec : FeatSpec ops κ τ ω` says that those operations refine the Python-list
 operations on a rows x columns table of cells (`spec.grid`).  The theorems hold for every such
-storage kind; `denseSpec` (proved in Proofs/Frame.lean) instantiates them for dense tensors, the
-C05/C06 refinement theorems are the instances for the ragged containers.
+storage kind; `denseSpec` (proved in Proofs/Frame.lean) instantiates them for dense tensors, and
+`featSpec` (proved in Proofs/FrameRagged.lean from the C05/C06 refinement lemmas) for the storage the
+driver runs — dense tensors, `MultiNestedTensor`, `MultiEmbeddingTensor` and dicts of
+`MultiNestedTensor`: the `_ragged` corollaries in the last section.
 `Grid.pick xs ps` is Python's `[xs[p] for p in ps]`; `ix.positions n` is the list of positions a
 Python list of length `n` selects for the index expression `ix` (or `none` where it raises).
 -/
 import TFVerif.Proofs.Frame
+import TFVerif.Proofs.FrameRagged
 
 namespace TFVerif.C07
 open TFVerif TFVerif.TF
@@ -169,5 +172,100 @@ theorem overshooting_slice (n a b : Nat) (ha : a ≤ n) (hb : n ≤ b) :
   exact slicePositions_nat n a b ha (by omega) |>.trans (by rw [Nat.min_eq_right hb])
 
 example : (Index.slice (some 5) (some 100) none).positions 7 = some [5, 6] := by decide
+
+/-! ### the ragged containers (instances of the theorems above at `featOps` / `featSpec`)
+
+`featSpec cl` (TFVerif/Proofs/FrameRagged.lean, built from the C05/C06 refinement theorems) is the
+specification of the storage the executable driver runs: dense tensors, `MultiNestedTensor`,
+`MultiEmbeddingTensor` and dicts of `MultiNestedTensor`, with `wf` = the C05 representation
+invariants.  The corollaries below are the theorems of this file at that instance; the `_cells`
+forms read the abstract table back as the cells `m[i, j]` of the containers. -/
+
+section ragged
+variable {α : Type}
+
+/-- **Row selection, ragged containers included.**  `getitem_rows` for frames over `featOps`. -/
+theorem getitem_rows_ragged (cl : α → α → Bool) {f : Frame (Feat α) β} {n : Nat} {ix : Index} {ps : List Nat}
+    (hwf : f.WF (featSpec cl) n) (hps : ix.positions n = some ps) :
+    ∃ f', f.getitem (featOps cl) ix = some f' ∧ f'.WF (featSpec cl) ps.length ∧ f'.names = f.names ∧
+      keys f'.feats = keys f.feats ∧
+      (∀ s φ, assoc s f.feats = some φ → ∃ φ', assoc s f'.feats = some φ' ∧
+        featGrid cl φ' = Grid.pick (featGrid cl φ) ps ∧ featTag cl φ' = featTag cl φ ∧
+        featMeta cl φ' = featMeta cl φ) ∧
+      f'.y = f.y.map (Grid.pick · ps) :=
+  getitem_rows (featSpec cl) hwf hps
+
+/-- ... read back on the containers: after `tf[ix]` a `MultiNestedTensor` feature is a well-formed
+    `MultiNestedTensor` whose cells `m'[i, j]` are the cells of rows `ps` of the source, in order
+    (same number of columns); a `MultiEmbeddingTensor` feature likewise, with unchanged column
+    widths. -/
+theorem getitem_rows_ragged_cells (cl : α → α → Bool) {f : Frame (Feat α) β} {n : Nat} {ix : Index} {ps : List Nat}
+    (hwf : f.WF (featSpec cl) n) (hps : ix.positions n = some ps) :
+    ∃ f', f.getitem (featOps cl) ix = some f' ∧
+      (∀ s m, assoc s f.feats = some (.nested m) → ∃ m', assoc s f'.feats = some (.nested m') ∧
+        m'.WFRep ∧ m'.numCols = m.numCols ∧ m'.grid.rows = Grid.pick m.grid.rows ps) ∧
+      (∀ s m, assoc s f.feats = some (.emb m) → ∃ m', assoc s f'.feats = some (.emb m') ∧
+        EmbWF m' ∧ m'.colWidths = m.colWidths ∧ m'.grid.rows = Grid.pick m.grid.rows ps) := by
+  obtain ⟨f', h1, h2, h3, h4, h5, h6⟩ := getitem_rows_ragged cl hwf hps
+  exact ⟨f', h1, isSel_ragged_cells cl ⟨h2, h3, h4, h5, h6⟩⟩
+
+open RaggedEx (frame frame2 frame_wf left2 right2 mnt3 met3 ids3 mask3 nestedOf embOf dictOf) in
+/-- non-vacuity: the mixed frame (nested + embedding + dict + dense features, target) is well
+    formed; `tf[1:100]` — a non-zero-based view: the offsets are re-based — holds rows 1, 2 of the
+    ragged cells, of the embedding rows and of the target. -/
+example : frame.WF (featSpec RaggedEx.eqI) 3 ∧
+    (Index.slice (some 1) (some 100) none).positions 3 = some [1, 2] ∧
+    (frame.getitem (featOps RaggedEx.eqI) (.slice (some 1) (some 100) none)).map
+        (fun f' => (nestedOf f' "multicategorical", embOf f' "embedding", f'.y)) =
+      some (some { numRows := 2, numCols := 2, values := [4, 5, 6, 7, 8, 9], offset := [0, 1, 4, 6, 6] },
+            some { numRows := 2, numCols := 2, width := 3, values := [[4, 5, 6], [7, 8, 9]], offset := [0, 2, 3] },
+            some [20, 30]) ∧
+    (MNT.grid ({ numRows := 2, numCols := 2, values := [4, 5, 6, 7, 8, 9], offset := [0, 1, 4, 6, 6] } : MNT Int)).rows
+      = Grid.pick mnt3.grid.rows [1, 2] :=
+  ⟨frame_wf, by decide, by decide, by decide⟩
+
+/-- **Raises exactly like a Python list**, ragged containers included. -/
+theorem getitem_raises_iff_ragged (cl : α → α → Bool) {f : Frame (Feat α) β} {n : Nat} {ix : Index}
+    (hwf : f.WF (featSpec cl) n) (hne : f.feats ≠ [] ∨ f.y ≠ none) :
+    f.getitem (featOps cl) ix = none ↔ ix.positions n = none :=
+  getitem_raises_iff (featSpec cl) hwf hne
+
+open RaggedEx (frame frame2 frame_wf left2 right2 mnt3 met3 ids3 mask3 nestedOf embOf dictOf) in
+example : frame.feats ≠ [] ∧ (Index.int 3).positions 3 = none ∧ (Index.mask [true, false]).positions 3 = none ∧
+    frame.getitem (featOps RaggedEx.eqI) (.int 3) = none ∧ frame.getitem (featOps RaggedEx.eqI) (.mask [true, false]) = none ∧
+    (frame.getitem (featOps RaggedEx.eqI) (.int (-3))).isSome = true :=
+  ⟨by simp [frame], by decide, by decide, by decide, by decide, by decide⟩
+
+/-- **Chains**, ragged containers included: `tf[ix1][ix2]...[ixk]` holds exactly the rows
+    `chainPositions n ixs` in every feature of every storage kind and in the target. -/
+theorem getitem_chain_ragged (cl : α → α → Bool) {f : Frame (Feat α) β} {n : Nat} {ixs : List Index} {qs : List Nat}
+    (hwf : f.WF (featSpec cl) n) (h : chainPositions n ixs = some qs) :
+    ∃ f', f.getitemChain (featOps cl) ixs = some f' ∧ f'.WF (featSpec cl) qs.length ∧ f'.names = f.names ∧
+      keys f'.feats = keys f.feats ∧
+      (∀ s φ, assoc s f.feats = some φ → ∃ φ', assoc s f'.feats = some φ' ∧
+        featGrid cl φ' = Grid.pick (featGrid cl φ) qs ∧ featTag cl φ' = featTag cl φ ∧
+        featMeta cl φ' = featMeta cl φ) ∧
+      f'.y = f.y.map (Grid.pick · qs) :=
+  getitem_chain (featSpec cl) hwf h
+
+open RaggedEx (frame frame2 frame_wf left2 right2 mnt3 met3 ids3 mask3 nestedOf embOf dictOf) in
+/-- non-vacuity: the chain `tf[1:][[1, 0]]` (an index list applied to a non-zero-based view) selects
+    rows 2, 1 of the source — in the nested tensor, the embedding tensor, both tensors of the dict
+    and the target. -/
+example : chainPositions 3 [.slice (some 1) none none, .list [1, 0]] = some [2, 1] ∧
+    (frame.getitemChain (featOps RaggedEx.eqI) [.slice (some 1) none none, .list [1, 0]]).map
+        (fun f' => (nestedOf f' "multicategorical", embOf f' "embedding", f'.y)) =
+      some (some { numRows := 2, numCols := 2, values := [8, 9, 4, 5, 6, 7], offset := [0, 2, 2, 3, 6] },
+            some { numRows := 2, numCols := 2, width := 3, values := [[7, 8, 9], [4, 5, 6]], offset := [0, 2, 3] },
+            some [30, 20]) ∧
+    (frame.getitemChain (featOps RaggedEx.eqI) [.slice (some 1) none none, .list [1, 0]]).map
+        (fun f' => dictOf f' "text_tokenized") =
+      some (some [("input_ids", { numRows := 2, numCols := 1, values := [101, 8, 9, 102, 101, 102], offset := [0, 4, 6] }),
+                  ("attention_mask", { numRows := 2, numCols := 1, values := [1, 1, 1, 1, 1, 1], offset := [0, 4, 6] })]) ∧
+    (MNT.grid ({ numRows := 2, numCols := 2, values := [8, 9, 4, 5, 6, 7], offset := [0, 2, 2, 3, 6] } : MNT Int)).rows
+      = Grid.pick mnt3.grid.rows [2, 1] :=
+  ⟨by decide, by decide, by decide, by decide⟩
+
+end ragged
 
 end TFVerif.C07
